@@ -3,3 +3,6 @@ import Gittuf.Props.C02
 #print axioms Gittuf.C02_newState_versions
 #print axioms Gittuf.C02_chain_sound
 #print axioms Gittuf.World.F4_witness
+#print axioms Gittuf.C02_verify_primary_signed
+#print axioms Gittuf.verifyDelegations_reached
+#print axioms Gittuf.C02_verify_delegations
